@@ -221,11 +221,11 @@ func (g *Gen) newFnVC(fn *ssa.Function, c *Contract, key string) *FnVC {
 // script assembles the SMT-LIB text shared by all obligations of the function.
 func (f *FnVC) scriptHead() string { return f.scriptHeadOpt(true) }
 
-func (f *FnVC) scriptHeadOpt(withQ bool) string { return f.scriptHeadSel(withQ, nil) }
+func (f *FnVC) scriptHeadOpt(withQ bool) string { return f.scriptHeadSel(withQ, nil, nil) }
 
 // scriptHeadSel: with keep != nil only facts generated in the given blocks (or in no block) are included.
 // Any subset of the facts is a sound set of assumptions; the slice keeps queries small.
-func (f *FnVC) scriptHeadSel(withQ bool, keep map[int]bool) string {
+func (f *FnVC) scriptHeadSel(withQ bool, keep map[int]bool, ob *Obl) string {
 	var sb strings.Builder
 	sb.WriteString("(set-option :produce-models true)\n(set-logic ALL)\n")
 	sb.WriteString(preludeText())
@@ -250,6 +250,9 @@ func (f *FnVC) scriptHeadSel(withQ bool, keep map[int]bool) string {
 		}
 		if keep != nil && i < len(f.factBlk) && f.factBlk[i] >= 0 && !keep[f.factBlk[i]] {
 			continue
+		}
+		if ob != nil && i < len(f.factBlk) && f.factBlk[i] == ob.Blk && i >= ob.NFact {
+			continue // describes instructions after the obligation's program point in its own block
 		}
 		sb.WriteString("(assert " + a + ")\n")
 	}
